@@ -36,6 +36,11 @@ def load_tree():
     real = os.path.realpath(rbql.__file__)
     if not real.startswith(os.path.realpath(pkg_root) + os.sep):
         raise HarnessError('rbql imported from %s, not from the tree %s' % (real, pkg_root))
+    try:
+        import pandas  # preload: forked helper processes must not pay the import
+    except ImportError:
+        pandas = None
+    import sqlite3
     t = Tree()
     t.rbql = rbql
     t.engine = rbql_engine
